@@ -175,7 +175,7 @@ func sortU(a []uint64) {
 
 // storeRawCommit writes a commit object with an arbitrary signature through go-git plumbing.
 func storeRawCommit(cw *caseWorld, tree repository.Hash, parents []repository.Hash, sig string) (repository.Hash, error) {
-	hub := cw.w.Hubs[0].Repo
+	hub := cw.w.Hubs[1].Repo
 	c := object.Commit{
 		Author:       object.Signature{When: time.Unix(1_690_000_000, 0)},
 		Committer:    object.Signature{When: time.Unix(1_690_000_000, 0)},
@@ -263,7 +263,11 @@ func (e *Engine) sigCase(p *sim.Plan, st *sim.Step, res *sim.RunResult, keep boo
 		res.HarnessErr = "push identity: " + err.Error()
 		return nil, "skipped"
 	}
-	if _, err := cw.victimPull(); err != nil {
+	if _, err := identity.Push(H.Sim, "hub1"); err != nil {
+		res.HarnessErr = "push identity: " + err.Error()
+		return nil, "skipped"
+	}
+	if _, err := cw.victimPull("hub0"); err != nil {
 		res.HarnessErr = "victim pull identities: " + err.Error()
 		return nil, "skipped"
 	}
@@ -361,7 +365,7 @@ func (e *Engine) sigCase(p *sim.Plan, st *sim.Step, res *sim.RunResult, keep boo
 			res.HarnessErr = fmt.Sprintf("git-bug did not produce a signed commit at time %d: %v signed=%v edit=%d", T, err, ent != nil && ent.Root.Signed, ent.Root.EditTime)
 			return nil, "skipped"
 		}
-		if _, err := bug.Push(H.Sim, "hub0"); err != nil {
+		if _, err := bug.Push(H.Sim, "hub1"); err != nil {
 			res.HarnessErr = "push: " + err.Error()
 			return nil, "skipped"
 		}
@@ -388,7 +392,7 @@ func (e *Engine) sigCase(p *sim.Plan, st *sim.Step, res *sim.RunResult, keep boo
 				res.HarnessErr = e2.Error()
 				return nil, "skipped"
 			}
-			sc, e3 := cw.w.Hubs[0].Repo.CommitObject(plumbing.NewHash(string(signed)))
+			sc, e3 := cw.w.Hubs[1].Repo.CommitObject(plumbing.NewHash(string(signed)))
 			if e3 != nil {
 				res.HarnessErr = e3.Error()
 				return nil, "skipped"
@@ -407,7 +411,7 @@ func (e *Engine) sigCase(p *sim.Plan, st *sim.Step, res *sim.RunResult, keep boo
 		}
 	}
 
-	outs, pullErr := cw.victimPull()
+	outs, pullErr := cw.victimPull("hub1")
 	panics := verifrt.TakePanics()
 	for _, pr := range panics {
 		add("panic", "panic in %s: %s", pr.Site, pr.Value)
@@ -530,7 +534,7 @@ func (e *Engine) sigHistoryCase(p *sim.Plan, st *sim.Step, res *sim.RunResult, c
 		res.HarnessErr = err.Error()
 		return nil, "skipped"
 	}
-	outs, pullErr := cw.victimPull()
+	outs, pullErr := cw.victimPull("hub1")
 	panics := verifrt.TakePanics()
 	for _, pr := range panics {
 		add("panic", "panic in %s: %s", pr.Site, pr.Value)
